@@ -1853,18 +1853,25 @@ impl Compiler {
 
                         // Should we export the imported ID?
                         if self.settings.export_top_level_ids && self.frame_stack.len() == 1 {
-                            self.compile_value_export(*import_id, import_register)?;
+                            let export_id = maybe_as.unwrap_or(*import_id);
+                            self.compile_value_export(export_id, import_register)?;
                         }
                     }
                     Node::Str(_) => {
-                        let import_register = if let Some(Node::Id(name, ..)) =
-                            item.name.map(|name| ctx.node(name))
-                        {
-                            self.assign_local_register(*name)?
+                        let import_register = if let Some(name) = maybe_as {
+                            self.assign_local_register(name)?
                         } else {
                             self.push_register()?
                         };
                         self.compile_import_item(import_register, item.item, wildcard_import, ctx)?;
+
+                        // Should we export the imported ID?
+                        if let Some(name) = maybe_as
+                            && self.settings.export_top_level_ids
+                            && self.frame_stack.len() == 1
+                        {
+                            self.compile_value_export(name, import_register)?;
+                        }
 
                         if result.register.is_some() {
                             imported.push(import_register);
@@ -1917,7 +1924,8 @@ impl Compiler {
 
                             // Should we export the imported ID?
                             if self.settings.export_top_level_ids && self.frame_stack.len() == 1 {
-                                self.compile_value_export(*import_id, import_register)?;
+                                let export_id = maybe_as.unwrap_or(*import_id);
+                                self.compile_value_export(export_id, import_register)?;
                             }
                         }
                         Node::Str(string) => {
@@ -1935,6 +1943,14 @@ impl Compiler {
                                 &string.contents,
                                 ctx,
                             )?;
+
+                            // Should we export the imported ID?
+                            if let Some(name) = maybe_as
+                                && self.settings.export_top_level_ids
+                                && self.frame_stack.len() == 1
+                            {
+                                self.compile_value_export(name, import_register)?;
+                            }
 
                             if result.register.is_some() {
                                 imported.push(import_register);
